@@ -289,8 +289,20 @@ func (x *palExec) ev(m map[string]any) {
 func (x *palExec) randID() int { return x.rng.Intn(x.maxID + 1) }
 
 // palTarget builds the container that will receive the wire form: same kind and length, used before as `class` says.
-func (x *palExec) target(class string) palCont {
+func (x *palExec) target(class string, prefill []int) palCont {
 	t := palNew(x.kind, x.n, x.randID())
+	if len(prefill) > 0 { // values chosen by the generator, so that later Sets can use ids of the target's OLD palette
+		for k, v := range prefill {
+			pos := k
+			if k%2 == 1 {
+				pos = x.n - 1 - k/2
+			}
+			if pos >= 0 && pos < x.n {
+				t.Set(pos, v)
+			}
+		}
+		return t
+	}
 	distinct := map[string]int{"fresh": 0, "one": 1, "few": 3, "many": 20, "huge": 300}[class]
 	if distinct > x.n {
 		distinct = x.n
@@ -367,7 +379,7 @@ func (x *palExec) step(op palOp) {
 		var rerr error
 		rleft := -1
 		if p, _ := catch(func() {
-			t = x.target(op.T)
+			t = x.target(op.T, op.Pal)
 			br := bytes.NewReader(in)
 			if op.Tail%2 == 1 {
 				rn, rerr = t.ReadFrom(&plainReader{r: br})
@@ -702,7 +714,33 @@ func (g *palGen) wire() {
 		return
 	}
 	g.budget--
-	g.ops = append(g.ops, palOp{Op: "wire", T: []string{"fresh", "one", "few", "many", "huge"}[g.rng.Intn(5)], Tail: g.rng.Intn(6)})
+	class := []string{"fresh", "one", "few", "many", "huge"}[g.rng.Intn(5)]
+	op := palOp{Op: "wire", T: class, Tail: g.rng.Intn(6)}
+	// the receiving container's previous contents: chosen here so that the history can go on with values of
+	// its OLD palette (a stale palette/index map after a reload shows only then)
+	distinct := map[string]int{"fresh": 0, "one": 1, "few": 3, "many": 20, "huge": 300}[class]
+	if distinct > g.n {
+		distinct = g.n
+	}
+	if distinct > g.maxID+1 {
+		distinct = g.maxID + 1
+	}
+	seen := map[int]bool{}
+	for len(op.Pal) < distinct {
+		v := g.rng.Intn(g.maxID + 1)
+		for seen[v] {
+			v = (v + 1) % (g.maxID + 1)
+		}
+		seen[v] = true
+		op.Pal = append(op.Pal, v)
+	}
+	g.ops = append(g.ops, op)
+	if len(op.Pal) > 0 {
+		for k := 0; k < 3; k++ {
+			g.set(g.rng.Intn(g.n), op.Pal[g.rng.Intn(len(op.Pal))])
+		}
+		g.ops = append(g.ops, palOp{Op: "dump"})
+	}
 }
 
 func (g *palGen) goTo(target int) {
